@@ -43,11 +43,47 @@ use serde::{Deserialize, Serialize};
 /// [`ShortMessageType::ControlChange`]: enum.ShortMessageType.html#variant.ControlChange
 /// [`ControlChange14BitMessageScanner`]: struct.ControlChange14BitMessageScanner.html
 #[derive(Copy, Clone, Eq, PartialEq, Hash, Debug)]
-#[cfg_attr(feature = "serde", derive(Serialize, Deserialize))]
+#[cfg_attr(
+    feature = "serde",
+    derive(Serialize, Deserialize),
+    serde(try_from = "ControlChange14BitMessageData")
+)]
 pub struct ControlChange14BitMessage {
     channel: Channel,
     msb_controller_number: ControllerNumber,
     value: U14,
+}
+
+/// Not yet validated content of a deserialized [`ControlChange14BitMessage`].
+///
+/// [`ControlChange14BitMessage`]: struct.ControlChange14BitMessage.html
+#[cfg(feature = "serde")]
+#[derive(Deserialize)]
+#[serde(rename = "ControlChange14BitMessage")]
+struct ControlChange14BitMessageData {
+    channel: Channel,
+    msb_controller_number: ControllerNumber,
+    value: U14,
+}
+
+#[cfg(feature = "serde")]
+impl core::convert::TryFrom<ControlChange14BitMessageData> for ControlChange14BitMessage {
+    type Error = &'static str;
+
+    fn try_from(data: ControlChange14BitMessageData) -> Result<Self, Self::Error> {
+        if data
+            .msb_controller_number
+            .corresponding_14_bit_lsb_controller_number()
+            .is_none()
+        {
+            return Err("MSB controller number of a 14-bit Control Change message must be 0 - 31");
+        }
+        Ok(ControlChange14BitMessage {
+            channel: data.channel,
+            msb_controller_number: data.msb_controller_number,
+            value: data.value,
+        })
+    }
 }
 
 impl ControlChange14BitMessage {
